@@ -71,7 +71,15 @@ enum Op {
     ListAll { who: u8 },
     Delete { who: u8, s: u8 },
     Grant { who: u8, to: u8, s: u8, lvl: u8 },
-    GrantTtl { who: u8, to: u8, s: u8, lvl: u8 },
+    /// ttl: 0 = Duration::ZERO, 1 = 1 ns, 2 = 1 h (default, so that older replay files still load)
+    GrantTtl {
+        who: u8,
+        to: u8,
+        s: u8,
+        lvl: u8,
+        #[serde(default = "ttl_one_hour")]
+        ttl: u8,
+    },
     Revoke { who: u8, from: u8, s: u8 },
     Delegate { who: u8, to: u8, s: u8, lvl: u8, ttl: bool },
     /// virtual clock + 2 h (TTLs are 1 h)
@@ -86,6 +94,23 @@ enum Op {
     Reopen,
 }
 
+fn ttl_one_hour() -> u8 {
+    2
+}
+fn ttl_duration(ttl: u8) -> Duration {
+    match ttl {
+        0 => Duration::ZERO,
+        1 => Duration::from_nanos(1),
+        _ => Duration::from_secs(3600),
+    }
+}
+fn ttl_name(ttl: u8) -> &'static str {
+    match ttl {
+        0 => "0",
+        1 => "1ns",
+        _ => "1h",
+    }
+}
 fn show(op: &Op) -> String {
     let e = |x: &u8| ENT[*x as usize];
     let s_ = |x: &u8| SEC[*x as usize];
@@ -98,7 +123,7 @@ fn show(op: &Op) -> String {
         Op::ListAll { who } => format!("list({}, \"*\")", e(who)),
         Op::Delete { who, s } => format!("delete({}, {})", e(who), s_(s)),
         Op::Grant { who, to, s, lvl } => format!("grant_with_permission({}, {}, {}, {})", e(who), e(to), s_(s), lvl_name(*lvl)),
-        Op::GrantTtl { who, to, s, lvl } => format!("grant_with_ttl({}, {}, {}, {}, 1h)", e(who), e(to), s_(s), lvl_name(*lvl)),
+        Op::GrantTtl { who, to, s, lvl, ttl } => format!("grant_with_ttl({}, {}, {}, {}, {})", e(who), e(to), s_(s), lvl_name(*lvl), ttl_name(*ttl)),
         Op::Revoke { who, from, s } => format!("revoke({}, {}, {})", e(who), e(from), s_(s)),
         Op::Delegate { who, to, s, lvl, ttl } => format!("delegate({}, {}, [{}], {}, {})", e(who), e(to), s_(s), lvl_name(*lvl), if *ttl { "Some(1h)" } else { "None" }),
         Op::Advance => "clock += 2h".into(),
@@ -135,6 +160,7 @@ fn alphabet(kind: &str) -> Vec<Op> {
     match kind {
         "quick" => v.retain(|o| !matches!(o, Op::Rotate { .. })),
         "core" => v.retain(|o| match o {
+            Op::GrantTtl { ttl: 1, .. } => false,
             Op::Set { s, .. } | Op::Grant { s, .. } | Op::GrantTtl { s, .. } | Op::Revoke { s, .. } | Op::Delete { s, .. } | Op::Get { s, .. } | Op::Delegate { s, .. } => *s == A,
             Op::Advance | Op::MemberAdd { .. } | Op::MemberDel { .. } => true,
             _ => false,
@@ -152,7 +178,9 @@ fn alphabet_full() -> Vec<Op> {
         Op::Grant { who: R, to: U1, s: A, lvl: 3 },
         Op::Revoke { who: R, from: U1, s: A },
         Op::Delete { who: R, s: A },
-        Op::GrantTtl { who: R, to: U1, s: A, lvl: 2 },
+        Op::GrantTtl { who: R, to: U1, s: A, lvl: 2, ttl: 2 },
+        Op::GrantTtl { who: R, to: U1, s: A, lvl: 2, ttl: 0 },
+        Op::GrantTtl { who: R, to: U1, s: A, lvl: 2, ttl: 1 },
         Op::Advance,
         Op::Get { who: R, s: A },
         Op::Reopen,
@@ -160,11 +188,15 @@ fn alphabet_full() -> Vec<Op> {
         Op::MemberAdd { m: U2, g: G },
         Op::MemberDel { m: U2, g: G },
         Op::Revoke { who: R, from: G, s: A },
-        Op::GrantTtl { who: R, to: G, s: A, lvl: 3 },
+        Op::GrantTtl { who: R, to: G, s: A, lvl: 3, ttl: 2 },
         Op::Grant { who: R, to: H, s: A, lvl: 2 },
         Op::MemberAdd { m: G, g: H },
         Op::MemberDel { m: G, g: H },
         Op::Grant { who: U1, to: U2, s: A, lvl: 1 },
+        // TTL grants issued by a non-root Admin (u1 once it holds Admin on A)
+        Op::GrantTtl { who: U1, to: U2, s: A, lvl: 2, ttl: 0 },
+        Op::GrantTtl { who: U1, to: U2, s: A, lvl: 2, ttl: 1 },
+        Op::GrantTtl { who: U1, to: U2, s: A, lvl: 2, ttl: 2 },
         Op::Delegate { who: U1, to: U3, s: A, lvl: 1, ttl: false },
         Op::Delegate { who: R, to: U3, s: B, lvl: 2, ttl: true },
         Op::Grant { who: R, to: U2, s: B, lvl: 1 },
@@ -431,7 +463,15 @@ impl World {
         self.edges.insert((kind, from, to), id);
         Outcome::ok()
     }
+    /// one vault call, after which the virtual clock moves on by 1 ms: under the frozen clock no time
+    /// would pass between calls, whereas in reality every later call happens after a 1 ns deadline.
+    /// (The reference ignores these ticks: they add up to far less than the 1 h / 2 h units.)
     fn exec(&mut self, op: Op, val: &str) -> Outcome {
+        let o = self.exec_inner(op, val);
+        nvc::env::clock_advance_ms(1);
+        o
+    }
+    fn exec_inner(&mut self, op: Op, val: &str) -> Outcome {
         let e = |x: u8| ENT[x as usize];
         let n = |x: u8| SEC[x as usize];
         match op {
@@ -472,7 +512,7 @@ impl World {
                 o
             }
             Op::Grant { who, to, s, lvl } => Outcome::from(self.vault.grant_with_permission(e(who), e(to), n(s), lvl_perm(lvl))).0,
-            Op::GrantTtl { who, to, s, lvl } => Outcome::from(self.vault.grant_with_ttl(e(who), e(to), n(s), lvl_perm(lvl), Duration::from_secs(3600))).0,
+            Op::GrantTtl { who, to, s, lvl, ttl } => Outcome::from(self.vault.grant_with_ttl(e(who), e(to), n(s), lvl_perm(lvl), ttl_duration(ttl))).0,
             Op::Revoke { who, from, s } => Outcome::from(self.vault.revoke(e(who), e(from), n(s))).0,
             Op::Delegate { who, to, s, lvl, ttl } => {
                 let (o, _) = Outcome::from(self.vault.delegate(e(who), e(to), &[n(s)], lvl_perm(lvl), ttl.then(|| Duration::from_secs(3600))));
@@ -659,9 +699,12 @@ impl Model {
                     self.grants.push(GrantRec { ent: to, s, lvl, expiry: None, dead: None })
                 }
             }
-            Op::GrantTtl { to, s, lvl, .. } => {
+            Op::GrantTtl { to, s, lvl, ttl, .. } => {
+                // a zero / 1 ns TTL has elapsed before any later call can be made: the grant is never
+                // live in the reference (expiry == time of granting, and live() demands now < expiry)
+                let expiry = if ttl >= 2 { self.now + HOUR_MS } else { self.now };
                 if !(self.corrupt && lvl == 2) {
-                    self.grants.push(GrantRec { ent: to, s, lvl, expiry: Some(self.now + HOUR_MS), dead: None })
+                    self.grants.push(GrantRec { ent: to, s, lvl, expiry: Some(expiry), dead: None })
                 }
             }
             Op::Delegate { to, s, lvl, ttl, .. } => self.grants.push(GrantRec { ent: to, s, lvl, expiry: ttl.then_some(self.now + HOUR_MS), dead: None }),
